@@ -12,8 +12,14 @@
 (*      [w, bases]); withD (BOOLEAN) asks for the exact per-basis           *)
 (*      distributions of the state prepared by `prep` and the exact         *)
 (*      expectation value, printed as <<"D", json>> for the driver          *)
+(*  "split": n, prog (C18SplitDefs program), shots, and the three integer   *)
+(*      histograms observed after Backend.simulate(..., save_mid_circuit_   *)
+(*      meas=True) with n_shots = shots: joint (backend.all_frequencies),   *)
+(*      mid (backend.mid_circuit_meas_freqs), final (returned frequencies), *)
+(*      each scaled by shots; nb = common key length, -2 if keys differ in  *)
+(*      length; exact = every frequency was a multiple of 1/shots           *)
 (***************************************************************************)
-EXTENDS C18Defs, C18GroupDefs
+EXTENDS C18Defs, C18GroupDefs, C18SplitDefs
 
 Jobs == JsonDeserialize(IOEnv.VERIF_JOBS)
 VARIABLE i
@@ -34,9 +40,23 @@ GroupJob(j) ==
        IN IF Assembled(j.groups, psi, j.n) # exact THEN "spec-inconsistent"
           ELSE IF PrintT(<<"D", ToJson([id |-> j.id, dists |-> dists, exact |-> exact])>>) THEN "ok" ELSE "print-failed"
 
+\* mid-circuit and final results are the two marginals of the joint histogram: nothing lost, nothing misaligned
+SplitJob(j) ==
+  LET k == NMeas(j.prog) IN
+  IF ~j.exact THEN "frequency-not-multiple-of-1/n"
+  ELSE IF j.final.nb # j.n THEN "final-key-width"
+  ELSE IF j.mid.nb # k THEN "mid-key-width"
+  ELSE IF j.joint.nb # k + j.n THEN "joint-key-width"
+  ELSE IF Total(j.final) # j.shots \/ Total(j.mid) # j.shots \/ Total(j.joint) # j.shots THEN "shots-not-conserved"
+  ELSE IF j.mid.cnt # FSplitLastHead(j.joint, j.n).cnt THEN "mid-is-not-the-marginal-of-all-frequencies"
+  ELSE IF j.final.cnt # FSplitLastTail(j.joint, j.n).cnt THEN "final-is-not-the-marginal-of-all-frequencies"
+  ELSE IF ~(HSupport(j.joint) \subseteq JointSupport(j.prog, j.n)) THEN "outcome-outside-exact-support"
+  ELSE "ok"
+
 Verdict(j) ==
   CASE j.kind = "resample" -> ResampleJob(j)
     [] j.kind = "group"    -> GroupJob(j)
+    [] j.kind = "split"    -> SplitJob(j)
     [] OTHER               -> "malformed-job"
 
 JInit == i \in 1..Len(Jobs)
